@@ -192,19 +192,20 @@ CLAIMS = {
         ref="DESIGN.md 4.1", technique="Rocq proof (composition of header, guard, lexer-line and verdict theorems over an emitter table from source) + conforming-program search",
         note=NOTE + "Partial: 37 checks are only searched; programs are generated by the Python renderer, not a Coq AST."),
     "C02": dict(
-        text="PARTIAL.  The run methods of seven checks (CheckTernary, CheckLineLen, CheckLabel, CheckManyInstructions, "
-             "CheckEmptyLine, CheckLineIndent, CheckSpacing) are translated statement by statement from the Python AST into "
-             "Gallina on every run (fail closed).  Theorems for EVERY token list, statement length and context view: the pattern "
-             "created by operators S05, L01, S03, S04, S07, S08, W01, W03-W10, W12-W15, W17 of the violation catalogue makes the "
-             "translated check emit the expected code on that line (iff / exact-value forms for S05, L01, S07/S08, W06/W07; "
-             "_given_history / _given_trace where the history or the matching primary is a hypothesis; the CheckSpacing theorems "
-             "conditional on normal return); S05 and L01 are lifted to files over the generic registry-loop model (C07 tiling + "
-             "run order from Gen.Registry).  The translated models are compared with the implementation on recorded invocations "
-             "(token window actually read, context fields, diagnostics).  The other operators of the 84-id catalogue are TESTED: "
-             "the property itself is evaluated on the implementation for conforming programs x all operators x structurally "
-             "varied sites.  Ten genuine misses are recorded with narrow site predicates.",
-        ref="DESIGN.md 4.2", technique="Rocq proof over check bodies translated from source (20 operators) + invocation-level correspondence + catalogue search (84 operators)",
-        note=NOTE + "Partial: 64 operators tested only; primaries are an oracle at file level; exit status is C04's theorem."),
+        text="PARTIAL.  29 of the 84 catalogue operators are proved for EVERY token list and context view, about Gallina functions "
+             "regenerated statement by statement from the current source of 10 checks on every run (fail closed): the 7 checks "
+             "without dependencies (CheckTernary, CheckLineLen, CheckLabel, CheckEmptyLine, CheckLineIndent, CheckSpacing, "
+             "CheckManyInstructions) plus CheckExpressionStatement, CheckControlStatement and the FORBIDDEN_<type> slice of "
+             "CheckUtypeDeclaration: S01-S08, S11, T01-T04, O07, L01, W01, W03-W10, W12-W15, W17 - the pattern the operator creates "
+             "makes the translated check emit the expected code on that line (iff / exact-value forms for S05, L01, S07/S08, "
+             "W06/W07; _given_history / _given_trace where the history or the matching primary is a hypothesis); S05 and L01 are "
+             "lifted to files over the generic registry-loop model (C07 tiling + run order from Gen.Registry).  All 10 models are "
+             "replayed against recorded invocations on every run (tokens actually read, context fields, diagnostics, exception "
+             "class).  The other 55 operators are TESTED: the property itself is evaluated on the implementation for conforming "
+             "programs (incl. programs sitting on a limit and multi-dot file names) x all operators x structurally varied sites.  "
+             "Ten genuine misses are recorded with narrow site predicates.",
+        ref="DESIGN.md 4.2", technique="Rocq proof over check bodies translated from source (29 operators) + invocation-level correspondence + catalogue search (84 operators)",
+        note=NOTE + "Partial: 55 operators tested only; primaries are an oracle at file level; exit status is C04's theorem."),
     "C19": dict(
         text="PARTIAL.  Theorems: a prefix of complete lines shifts the true position of every raw offset by its number of lines at "
              "the same column (all prefixes, texts, offsets), hence corresponding tokens of src and P ++ src differ by exactly that "
